@@ -25,6 +25,10 @@ func checkC16(r *core.Run) {
 	r.Rule("T-count: Append*: id := GetCount(); record stored under key(id) with Id := id; SetCount(id + 1); return id")
 	r.Rule("G-inflight: UpdateMetaStatusAndCommit writes <= metadata.Status == MetaComplete; in Store the call <= lastOrder.Status == OrderCompleted with lastOrder = GetOrder(meta.OrderId)")
 	r.Rule("T-forcepush: the shrinking reslice of Metadata.Commits is never inside a loop (a force-push replaces only the latest entry)")
+	r.Rule("T-persist: a field assigned on a local copy of a stored Metadata record is persisted on every success path of that function (the in-flight marker Status/Commit/OrderId set by UpdateMetaStatusAndCommit must reach the store)")
+	rulePersisted(r, "T-persist", "model/types.Metadata")
+	r.Rule("T-lost-update: no stale local copy of a record is written back after a helper stored that record")
+	ruleLostUpdate(r, "T-lost-update")
 	r.Rule("E6-pair(order): the order and shard counters are restored by InitGenesis into the keys ExportGenesis read them from (identifiers stay unique across a genesis restart)")
 	ruleGenesisPairs(r, "E6-pair", "order")
 	r.Rule("T-base(latest): in Store the call is dominated by a test relating the request's base commit to meta.Commit, the model's latest version (equality or containment) — a membership test in the list of all committed versions accepts stale bases")
@@ -521,4 +525,31 @@ func checkSettle(r *core.Run, fnName string) {
 	} else {
 		r.Violate("T-settle", key2, r.P.Pos(ch.Pos()), "after Pledge.TotalStorage changes the reward debt is not re-based (RewardDebt := Acc×TotalStorage') before the pledge is persisted: later settlements pay for capacity that was not pledged (or withhold what was)")
 	}
+}
+
+// rulePersisted (T-persist): a change made to a local copy of a stored record in
+// a function that does persist that copy on other paths is persisted on every
+// success path (an early `return nil` between the field assignments and the
+// setter silently drops e.g. the in-flight marker of a data model).
+func rulePersisted(r *core.Run, id string, typeNames ...string) {
+	tn := set(typeNames...)
+	n, scanned := 0, 0
+	for _, f := range r.P.SortedFuncs(r.ConsensusFuncs()) {
+		if r.P.IsGenerated(f) {
+			continue
+		}
+		scanned++
+		seen := map[string]bool{}
+		for _, u := range unpersisted(r, f, tn) {
+			key := core.Key(id, r.P.Name(f), u.Field)
+			if seen[key] {
+				continue
+			}
+			seen[key] = true
+			n++
+			r.Violate(id, key, r.P.Pos(u.Store.Pos()), fmt.Sprintf("%s assigns %s on its local copy of a stored record and can then return success without persisting that copy (it does persist it on other paths): the change is silently dropped", r.P.Name(f), u.Field), pathDesc(r, u.Path))
+		}
+	}
+	r.Discharge(id, core.Key(id, "scope"), "", fmt.Sprintf("%d functions scanned for modified-but-unpersisted local records of %v, %d found", scanned, typeNames, n))
+	r.Count("persist_functions_scanned", scanned)
 }
